@@ -29,8 +29,12 @@ RULES = {
     "subgraph(s) is recorded as a predecessor of the owning node - the recording call sits directly in the loop(s) over the "
     "subgraph's nodes, with no test on the nested node (its uses, successors, outputs …) and no early exit deciding whether "
     "the edge exists",
+    "R7": "a reference attribute holds no graph (shared rule S18): the GRAPH / GRAPHS dispatch of sort() and of the recursive iterator it "
+    "collects its nodes with reads `attr.value` only for attributes that are not references (`is_ref()` leaves the iteration first) - "
+    "for a reference attribute of graph type (an If in a function body whose branches are attribute parameters) the value is None "
+    "and sorting, or merely walking, the function raises TypeError",
 }
-FLOORS = {"R1": 2, "R2": 4, "R3": 3, "R4": 1, "R5": 2, "R6": 2}
+FLOORS = {"R1": 2, "R2": 4, "R3": 3, "R4": 1, "R5": 2, "R6": 2, "R7": 2}
 EXPLANATION = (
     "Dominance of the cycle rejection over every state-writing call of Graph.sort (effect summaries), and structural "
     "checks that relinking goes through the ownership-preserving API into the graph each node already belongs to."
@@ -218,6 +222,19 @@ def run(ctx):
                   how="control conditions of the edge-recording statement inside the loop over node.inputs (in sort or in the helper it iterates); exits before it",
                   construct="producer edge recorded conditionally")
     ctx.require(n_edges >= 1, "Graph.sort: loop recording the producers of node.inputs not found")
+    # R7
+    from ..shared import ref_attr_guards
+
+    n7 = 0
+    for g in [f, repo.func("onnx_ir.traversal:RecursiveGraphIterator._iterate_subgraphs")]:
+        for node, guarded in ref_attr_guards(g):
+            n7 += 1
+            ctx.check("R7", f"S18 {g.local}: the graph-attribute dispatch is not reached for reference attributes", guarded, g, node,
+                      f"`{norm(node.test)[:60]}` holds for a reference attribute of graph type as well, whose value is None: iterating it raises TypeError - sorting or "
+                      "walking a function whose control-flow node takes its branches from attribute parameters fails (and so does deserialize_model for a model with device "
+                      "configurations, which walks every node)",
+                      how="an is_ref() test that continues / encloses precedes every `attr.type == GRAPH(S)` dispatch that reads attr.value", construct=f"reference attributes reach the graph dispatch of {g.local}")
+    ctx.require(n7 >= 2, "graph-attribute dispatches of sort() / the recursive iterator not found")
     # R6
     n_nested = 0
     for fn in [f] + list(f.nested.values()):
